@@ -34,6 +34,7 @@ UNIT_DEPS = {
     'prim_mul': ['mul', 'conv'],
     'round': ['core', 'pow10', 'types', 'context'],
     'config': ['types'],
+    'toint': ['core', 'scale', 'pow10', 'conv'],
     'digits': ['pow10', 'core'],
     'rem': ['core', 'scale', 'pow10'],
     'context': ['types', 'config', 'round'],
@@ -63,7 +64,7 @@ NOT_APPLICABLE = {
     'C13': 'statement about the real function e^x to one ulp; contracts here are integer-only and the Taylor loop has no termination measure (DESIGN.md section 7)',
     'C17': 'feature-gated code generic over foreign serde traits and strings; no contract within reach (DESIGN.md section 7)',
 }
-for _p in ['C02', 'C05', 'C07', 'C08', 'C10', 'C11', 'C12', 'C14', 'C15', 'C16', 'C19', 'C20']:
+for _p in ['C02', 'C05', 'C07', 'C08', 'C10', 'C11', 'C12', 'C14', 'C16', 'C19', 'C20']:
     NOT_APPLICABLE[_p] = _WIP
 
 _NOTE_COMMON = ('Assumed: num-bigint/num-traits/num-integer contracts (spec/shim_base.rs, vf/shimgen.py), std specs, '
@@ -96,6 +97,14 @@ prop('C09', units=['rem', 'scale', 'core', 'pow10'], level='proof',
                  'remainder of the operands aligned to that scale; prelude lemma lemma_trem_props proves that this is a - b*trunc(a/b), '
                  'smaller than |b| in magnitude, zero or of the sign of a, and independent of the sign of b'),
      level_note=_NOTE_COMMON,
+     technique=_TECH)
+
+prop('C15', units=['toint', 'conv', 'scale', 'core', 'pow10'], level='proof',
+     level_text=('Verus proves that to_i64/to_i128/to_u64/to_u128 (on references and, through them, on values) return Some(trunc(i*10^-s)) '
+                 'exactly when that integer fits the target type and None otherwise, with None for every negative decimal and unsigned target '
+                 '(scale==0 fast paths per sign, the MIN special case and its closure, the re-scaling path), to_bigint = truncation, From<int>/From<&int> for all '
+                 'ten integer types and From<BigInt> exact with scale 0, is_integer <=> i mod 10^s == 0'),
+     level_note=_NOTE_COMMON + ' num-bigint to_i64/to_u64/... are assumed (Some iff fits). The closure of the MIN special case is wrapped in a block to carry its contract (inline annotation). From<(T,i64)> is not under contract (tuple-pattern parameter).',
      technique=_TECH)
 
 prop('C18', units=['pow10', 'core', 'canon', 'scale', 'digits'], level='proof',
